@@ -4435,6 +4435,8 @@ def bundle_retention(P, R, L):
     R.once(pair12_file_level_pairs, P, R, L)
     R.once(grd30_base_level_cursor, P, R, L)
     from . import round12
+    R.clause("PAIR-9 (chain)", "add_boundary_inputs keys its boundary search by the largest key of the input set and continues from the largest key of the file it just added")
+    R.once(round12.pair9c_boundary_search_continues_from_the_largest_key, P, R, L)
     R.clause("LVL-2", "is_base_level_for_key scans the levels from <compaction level> + 2 (the first level below the output level), however the expression is spelled")
     R.once(round12.lvl2_base_level_scan_start, P, R, L)
     R.clause("EXP-1", "the level-0 input expansion compares files with the WIDENED range, restarts when a file widens the start, stores a wider end, and goes on to the next file only after both widening tests came out false")
